@@ -320,6 +320,8 @@ def requests_C09gen(docs, emitted, seed, tier):
                         else:
                             out.append(f"gb {vn} {it['name']} {p} {idlgen.ENC[p](w).hex() or '-'}{oo}")
                         b = idlgen.ENC[p](v)
+                        if len(b) > 400:
+                            continue      # (a multi-kilobyte payload times every byte position: the valid message above is enough)
                         ms = mutate_bytes(b, r, tier)
                         if tier == "quick":
                             ms = r.sample(ms, min(len(ms), 40))
